@@ -1,5 +1,6 @@
 import Driver.Util
 import Driver.Iter
+import Driver.Recv
 
 /-!
 Line-protocol driver: one case per input line, `tag \t fields… \t observed`, one answer per line,
@@ -10,6 +11,7 @@ open Driver
 def dispatch (line : String) : String :=
   match splitTabs line with
   | "iter" :: rest => (handleIter rest).getD "BAD-CASE\t0"
+  | "recv" :: rest => (handleRecv rest).getD "BAD-CASE\t0"
   | _ => "BAD-TAG\t0"
 
 partial def loop (h : IO.FS.Stream) (out : IO.FS.Stream) : IO Unit := do
